@@ -105,7 +105,43 @@ def main():
             o["tables"] = tables()
             steps.append(o)
         out.append(steps)
-    json.dump({"python": sys.version.split()[0], "initial_tables": job.get("_", None), "results": out}, open(outp, "w"))
+    # ---- the generated enums as fields of a generated struct: read with Enum(reader.get_*()), written with int(value)
+    problems = []
+    if job.get("user_fields"):
+        try:
+            um = importlib.import_module("eolib.protocol._generated.net.enum_user")
+            W = importlib.import_module("eolib.data.eo_writer").EoWriter
+            R = importlib.import_module("eolib.data.eo_reader").EoReader
+            User = um.EnumUser
+            limit = {"byte": 256, "char": 253, "short": 253 ** 2}
+            for variant in range(6):
+                w = W()
+                expect = []
+                for fname, en, wire, count in job["user_fields"]:
+                    ords = [m["ord"] for m in job["enums"][en]["members"] if 0 <= m["ord"] < limit[wire]]
+                    vals = []
+                    for k in range(count):
+                        n = ords[(variant + k) % len(ords)] if (variant + k) % 3 else (max(ords) + 5 + variant) % limit[wire]
+                        getattr(w, "add_" + wire)(n)
+                        vals.append(n)
+                    expect.append((fname, en, vals, count))
+                data = bytes(w.to_bytearray())
+                obj = User.deserialize(R(data))
+                for fname, en, vals, count in expect:
+                    got = getattr(obj, fname)
+                    got = list(got) if count > 1 else [got]
+                    cls = getattr(importlib.import_module("eolib.protocol._generated.net." + job["enums"][en]["module"]), en)
+                    for n, g in zip(vals, got):
+                        declared = [m for m in cls if int(m) == n]
+                        if type(g) is not cls or int(g) != n or (declared and g is not declared[0]) or (not declared and g.name != f"Unrecognized({n})"):
+                            problems.append(f"EnumUser.{fname}: ordinal {n} read as {g!r} of type {type(g).__name__} (enum {en})")
+                w2 = W()
+                User.serialize(w2, obj)
+                if bytes(w2.to_bytearray()) != data:
+                    problems.append(f"EnumUser: read-then-write changed the bytes: {list(data)} -> {list(w2.to_bytearray())}")
+        except Exception as e:  # noqa
+            problems.append(f"EnumUser could not be used: {type(e).__name__}: {e}")
+    json.dump({"python": sys.version.split()[0], "initial_tables": job.get("_", None), "results": out, "user_problems": problems}, open(outp, "w"))
 
 
 if __name__ == "__main__":
